@@ -29,7 +29,25 @@ RAW_BODIES = [
 # generator (C12)
 
 
+def gen_c12_small(rng):
+    """Two or three clients with one request each on a small pooled server: short runs, so that a narrow window
+    between two requests handled at the same time is likely to be tried."""
+    mx = rng.choice([2, 2, 3])
+    sv = {"kind": "pooled-user", "family": "tcp", "version": rng.choice([2.0, 2.0, 1.0]), "pool": [mx, rng.randrange(0, mx + 1)],
+          "pool_timeout": 2.0}
+    methods = {"echo": {"kind": "echo"}, "fail": {"kind": "fail"}, "err": {"kind": "sharedfault"}, "ns.echo": {"kind": "echo"}}
+    clients = []
+    for ci in range(rng.randint(2, 3)):
+        tok = "c%do0" % ci
+        m = rng.choice(["echo", "err", "err", "fail", "ns.echo", "nope"])
+        op = rng.choice([["call", m, [tok, 0]], ["call", m, [tok]], ["batch", [["call", m, [tok + "e0"]], ["notify", "echo", [tok + "e1"]]]]])
+        clients.append({"version": rng.choice([None, 2.0, 1.0]), "history": False, "ops": [op]})
+    return {"server": sv, "net": {"seg": "whole", "delay": 0}, "methods": methods, "clients": clients, "lifecycle": "serve"}
+
+
 def gen_c12(rng, big=False):
+    if rng.random() < 0.2:
+        return gen_c12_small(rng)
     kind = rng.choice(["plain", "plain", "pooled", "pooled-user", "pooled-user"])
     sv = {"kind": kind, "family": rng.choice(["tcp", "tcp", "unix"]), "version": rng.choice([2.0, 2.0, 2.0, 1.0])}
     if kind == "pooled-user":
@@ -47,7 +65,7 @@ def gen_c12(rng, big=False):
     life = rng.choices(["serve", "never-served", "shutdown-inflight", "handle-loop", "serve-twice"], [62, 8, 14, 8, 8])[0]
     methods = {"echo": {"kind": "echo"}, "fail": {"kind": "fail"},
                "slow": {"kind": "slow", "d": rng.choice([0.5, 1.0, 2.0])},
-               "ns.echo": {"kind": "echo"}, "quit": {"kind": "exit"}}
+               "ns.echo": {"kind": "echo"}, "quit": {"kind": "exit"}, "err": {"kind": "sharedfault"}}
     if life == "shutdown-inflight":
         methods["gate"] = {"kind": "gate", "gate": "g"}
     names = sorted(methods) + ["nope"]
@@ -100,6 +118,8 @@ def gen_c12(rng, big=False):
         prog["double_close"] = True
     if life == "serve" and rng.random() < 0.15:
         prog["second_server"] = True
+    if sv["family"] == "unix" and not clients and rng.random() < 0.5:
+        sv["abstract"] = True
     return prog
 
 
@@ -346,6 +366,8 @@ class C12Scenario(object):
             p["client_aborted_connection"] = 1
         if program["server"].get("npool") == "shared":
             p["shared_request_and_notification_pool"] = 1
+        if program["server"].get("abstract"):
+            p["abstract_unix_address"] = 1
         if s.faults.get("close_with_unread_data") or s.faults.get("write_to_closed_peer"):
             p["connection_died_under_the_handler"] = 1
         stats = {"steps": s.step, "switches": s.nswitch, "simtime": s.now, "verdict": verdict.kind if verdict else None,
